@@ -87,7 +87,7 @@ type c05State struct {
 	outcome string
 }
 
-var c05Outcomes = []string{"marker", "marker", "marker", "error-reserr", "error-plain", "panic-reserr", "panic-err", "panic-str", "panic-int", "none", "error-std-notfound", "error-wrapped", "panic-wrapped"}
+var c05Outcomes = []string{"marker", "marker", "marker", "error-reserr", "error-plain", "panic-reserr", "panic-err", "panic-str", "panic-int", "none", "error-std-notfound", "error-wrapped", "panic-wrapped", "panic-nil"}
 
 // an error of another type that merely wraps a *res.Error is not "an error value of the library's error type"
 var errWrapped = fmt.Errorf("wrapped: %w", errRes)
@@ -117,6 +117,8 @@ func c05Handle(st *c05State, marker string, rq interface{}, reply func(r *res.Re
 		r.Error(errWrapped)
 	case "panic-wrapped":
 		panic(errWrapped)
+	case "panic-nil":
+		panic(nil)
 	case "panic-str":
 		panic("boom")
 	case "panic-int":
